@@ -10,6 +10,8 @@ import (
 	"sync/atomic"
 	"time"
 
+	"github.com/yorkie-team/yorkie/pkg/document"
+
 	"verifmc/hist"
 )
 
@@ -256,4 +258,32 @@ func CoreOf(f *Found) string {
 		init = strings.Join(f.Scenario.Init, "+")
 	}
 	return fmt.Sprintf("%s|%s|init=%s|%s", f.Kind, f.Sig, init, hist.HistString(f.Hist))
+}
+
+// drainStops holds the stop channels of the goroutines that drain the event
+// channels of documents made by single-replica checks (a document blocks in
+// ApplyChangePack / Update when nobody reads its events, and the channel is
+// never closed). releaseDocs ends them: called at the end of every case, else
+// one goroutine and one document leak per case (20 MB/s in C08's loop).
+var drainStops []chan struct{}
+
+func drainEvents(events <-chan document.DocEvent) {
+	stop := make(chan struct{})
+	drainStops = append(drainStops, stop)
+	go func() {
+		for {
+			select {
+			case <-events:
+			case <-stop:
+				return
+			}
+		}
+	}()
+}
+
+func releaseDocs() {
+	for _, s := range drainStops {
+		close(s)
+	}
+	drainStops = drainStops[:0]
 }
